@@ -346,6 +346,12 @@ pub enum NearKind {
     /// number of FRI layers and of FRI commitments adjusted to what the new schedule prescribes (by
     /// repeating / dropping layers), so that the proof stays structurally consistent
     Schedule(u8, u8),
+    /// the proof re-packaged for another number of unique queries: the count is raised (or lowered) by `delta`
+    /// and every query table (trace segments, constraint evaluations) gets that many copies of its last row
+    /// appended (or loses that many rows), length prefixes fixed up; the openings are left as they are
+    Requery(i8),
+    /// set the one-byte length / count / scalar field number `idx` to this value (every value is enumerated)
+    FieldSet(usize, u8),
 }
 
 #[derive(Serialize, Deserialize, Clone, Debug)]
@@ -389,6 +395,21 @@ fn near_one<B: FA, H: ElementHasher<BaseField = B> + Send + Sync>(c: &NearCase, 
                 Some(b) => b,
                 None => return Ok(()),
             }
+        },
+        NearKind::Requery(delta) => {
+            obs.label("near=requery");
+            match requery(&base, *delta) {
+                Some(b) => b,
+                None => return Ok(()),
+            }
+        },
+        NearKind::FieldSet(idx, v) => {
+            obs.label("near=field-byte");
+            let cands: Vec<_> = base.fields.iter().filter(|f| f.kind != Kind::Data && f.len == 1).collect();
+            let Some(f) = cands.get(*idx) else { return Ok(()) };
+            let mut b = base.bytes.clone();
+            b[f.off] = *v;
+            b
         },
         NearKind::FieldMode(idx, mode) => {
             obs.label("near=field");
@@ -451,6 +472,46 @@ fn reextend<B: FA>(base: &Baseline, new_deg: u8) -> Option<Vec<u8>> {
             out.extend_from_slice(&new_len.to_le_bytes()[..f.len]);
         } else if is_target(&f.path) && f.kind == Kind::Data {
             out.extend(recode(bytes));
+        } else {
+            out.extend_from_slice(bytes);
+        }
+    }
+    Some(out)
+}
+
+/// re-packages the proof for another number of unique queries (see NearKind::Requery)
+fn requery(base: &Baseline, delta: i8) -> Option<Vec<u8>> {
+    let uq = base.fields.iter().find(|f| f.path == "num_unique_queries")?;
+    let old = base.bytes[uq.off] as i32;
+    let new = old + delta as i32;
+    if old == 0 || new < 0 || new > 255 || delta == 0 {
+        return None;
+    }
+    let is_table = |path: &str| path == "constraint_queries.values" || (path.starts_with("trace_queries[") && path.ends_with(".values"));
+    let resize = |bytes: &[u8]| -> Vec<u8> {
+        let row = bytes.len() / old as usize;
+        let mut out = bytes.to_vec();
+        if delta > 0 {
+            let last = bytes[bytes.len() - row..].to_vec();
+            for _ in 0..delta {
+                out.extend_from_slice(&last);
+            }
+        } else {
+            out.truncate(row * new as usize);
+        }
+        out
+    };
+    let mut out = vec![];
+    for f in &base.fields {
+        let bytes = &base.bytes[f.off..f.off + f.len];
+        if f.path == "num_unique_queries" {
+            out.push(new as u8);
+        } else if let Some(target) = f.path.strip_suffix(".len").filter(|t| is_table(t)) {
+            let data = base.fields.iter().find(|x| x.path == target && x.kind == Kind::Data)?;
+            let new_len = resize(&base.bytes[data.off..data.off + data.len]).len() as u64;
+            out.extend_from_slice(&new_len.to_le_bytes()[..f.len]);
+        } else if is_table(&f.path) && f.kind == Kind::Data {
+            out.extend(resize(bytes));
         } else {
             out.extend_from_slice(bytes);
         }
@@ -573,6 +634,20 @@ pub fn run(run: &mut Run) {
                 cases.push(NearCase { shape: s.clone(), kind: NearKind::Schedule(f, r) });
             }
         }
+        // every value of every one-byte field
+        let nbyte_fields = crate::dispatch!(s.field, s.hasher, byte_fields, s).ok().flatten().unwrap_or(0);
+        for idx in 0..nbyte_fields {
+            for v in 0..=255u8 {
+                cases.push(NearCase { shape: s.clone(), kind: NearKind::FieldSet(idx, v) });
+            }
+        }
+        // re-packaged query counts, for the proof as it is and for the same computation proven with a single query
+        let mut s1 = s.clone();
+        s1.opts.queries = 1;
+        for delta in [1i8, 2, 3, -1] {
+            cases.push(NearCase { shape: s.clone(), kind: NearKind::Requery(delta) });
+            cases.push(NearCase { shape: s1.clone(), kind: NearKind::Requery(delta) });
+        }
         if tier == Tier::Thorough {
             for bit in 0..len * 8 {
                 cases.push(NearCase { shape: s.clone(), kind: NearKind::Bit(bit) });
@@ -581,7 +656,7 @@ pub fn run(run: &mut Run) {
     }
     run.enumerate(
         "near-valid-exhaustive",
-        "for a basket of small honest proofs (three fields, with and without auxiliary segment): truncation at every offset, every byte replaced by 0x00/0x01/0x7f/0x80/0xff, every length/count/size/scalar field set to 0/1/max-1/max/+1/-1/*2/a fixed pattern, the proof re-encoded for every other field extension degree (all extension-field elements widened / narrowed, prefixes fixed), every other valid FRI option pair (folding 2..16 x remainder degree 0..255) written into the context with the layer and commitment counts adjusted to the new schedule (thorough: also every single-bit flip); non-trivial = the bytes parsed",
+        "for a basket of small honest proofs (three fields, with and without auxiliary segment): truncation at every offset, every byte replaced by 0x00/0x01/0x7f/0x80/0xff, every length/count/size/scalar field set to 0/1/max-1/max/+1/-1/*2/a fixed pattern, every one-byte field set to every value 0..255, the proof re-encoded for every other field extension degree (all extension-field elements widened / narrowed, prefixes fixed), every other valid FRI option pair (folding 2..16 x remainder degree 0..255) written into the context with the layer and commitment counts adjusted to the new schedule, the proof (and the same computation proven with one query) re-packaged for 1..3 more / one fewer unique queries with rows appended to / removed from every query table (thorough: also every single-bit flip); non-trivial = the bytes parsed",
         true,
         cases.into_iter(),
         |c: &NearCase, obs: &mut Obs| crate::dispatch!(c.shape.field, c.shape.hasher, near_one, c, obs),
@@ -589,6 +664,10 @@ pub fn run(run: &mut Run) {
     run.sub(&Mutants { tier });
     run.sub(&Splice { tier });
     run.sub(&Raw { tier });
+}
+
+fn byte_fields<B: FA, H: ElementHasher<BaseField = B> + Send + Sync>(s: &Shape) -> Result<Option<usize>, Fail> {
+    Ok(crate::c03::cached_baseline::<B, H>(s, 1 << 13)?.map(|b| b.fields.iter().filter(|f| f.kind != Kind::Data && f.len == 1).count()))
 }
 
 fn base_info<B: FA, H: ElementHasher<BaseField = B> + Send + Sync>(s: &Shape) -> Result<Option<(usize, usize)>, Fail> {
